@@ -82,7 +82,12 @@ pub fn loose(ast: &Ast, ph: f64, visit: &mut dyn FnMut(&Ast, f64)) -> Option<f64
                     }
                     r.v
                 }
-                Func::W | Func::ILog => return None,
+                // no stated value (ilog) or no closed form (w): the restriction only needs the magnitude
+                // of the node, and eval_f64's own answer serves for that
+                Func::W | Func::ILog => match sut::call(Ev::F64, &ast.render(), &Val::F(ph)) {
+                    Outcome::Ok(Val::F(v)) => v,
+                    _ => return None,
+                },
                 _ => {
                     let r = rf::func_ref(*f, &xs);
                     if r.v.is_nan() {
@@ -221,6 +226,43 @@ impl Monitor for C15 {
                 });
             }
         }
+        // (a3) every two-argument function and operator on a grid of whole numbers and their powers (n =
+        // b^2, b^3 and neighbours, for b = 2..60 and a few fractions): the same formula written two ways
+        // (a quotient of logarithms, a hoisted reciprocal) differs between evaluators exactly there
+        // (seeded change C15-r9: ilog(b^2, b) = 1 in eval_number for one base in five)
+        {
+            let mut forms: Vec<String> = vec!["{a}^{b}".into(), "{a}/{b}".into(), "{a}%{b}".into()];
+            for (sp, f) in spellings_for(Ev::F64) {
+                if f.arity() == Arity::Two {
+                    forms.push(format!("{}({{a}},{{b}})", sp));
+                    forms.push(format!("{}({{b}},{{a}})", sp));
+                }
+            }
+            let mut bases: Vec<String> = (2..=60).map(|b| b.to_string()).collect();
+            bases.extend(["1.5", "2.1", "2.5", "0.5", "10.5"].iter().map(|s| s.to_string()));
+            for form in &forms {
+                for b in &bases {
+                    let bv: f64 = b.parse().unwrap_or(2.0);
+                    for n in [bv * bv, bv * bv * bv, bv * bv + 1.0, bv * bv - 1.0, bv, bv * bv * bv * bv] {
+                        if !ctx.mine() {
+                            continue;
+                        }
+                        let nt = match f64_literal(n) {
+                            Some(t) => t,
+                            None => continue,
+                        };
+                        let s = form.replace("{a}", &nt).replace("{b}", b);
+                        ctx.check(&Case::pair(Ev::F64, "f64-vs-number", &s, Val::F(0.0), &s, Val::NI(0)), &|c, st| {
+                            let v = self.judge(c, st);
+                            if let Verdict::Pass { .. } = v {
+                                st.inc("agree.power-grid");
+                            }
+                            v
+                        });
+                    }
+                }
+            }
+        }
         // (b) shared f64 grammar: eval_number's numeric value equals eval_f64's result
         {
             let leaf = |rng: &mut Rng| -> Ast {
@@ -232,8 +274,7 @@ impl Monitor for C15 {
                     _ => Ast::Lit(rng.pick(&["0.5", "2.5", "1.25", "0.1", "3.0", "10.5", "0.75", "100", "1000000", "0.001", "7.0", "2.0"][..]).to_string()),
                 }
             };
-            let mut cfg = GenCfg::full(Ev::F64, &leaf);
-            cfg.funcs.retain(|f| !matches!(f, Func::ILog));
+            let cfg = GenCfg::full(Ev::F64, &leaf);
             let n = ctx.tier.pick(150_000u64, 3_000_000);
             for i in 0..n {
                 if ctx.mine() {
